@@ -171,7 +171,9 @@ def build_schema(desc: dict) -> dict:
         op: dict = {"operationId": "op%d" % i, "responses": {"200": {"description": "ok"}}}
         params = []
         if beh in ("badif",) or desc.get("params"):
-            params.append({"name": "q", "in": "query", "required": True, "schema": {"type": "integer", "minimum": 0, "maximum": 1000}})
+            # the example makes the examples phase send something (101+ triggers the conditional failure of "badif")
+            params.append({"name": "q", "in": "query", "required": True, "schema": {"type": "integer", "minimum": 0, "maximum": 1000},
+                           "example": 150 if beh == "badif" else 7})
         if beh == "invalid":
             params.append({"name": "broken", "in": "query", "schema": {"type": "wrong-type-name"}})
         if beh == "weird":
